@@ -7,7 +7,7 @@ ID = "C01"
 LEVEL = "exploration"
 N = {"quick": 600, "thorough": 5000}
 RULE = ("cases = (two contracts over a wiring in {independent, cascade either order, shared inputs, feedback, mixed} with structured "
-        "or wild contents sharing a witness, vars_to_keep subset of outputs, simplify flag, tactics_order, call order); oracle: "
+        "or wild contents sharing a witness, plus cascades whose consumer assumption cancels to a variable-free `0 <= -delta`, vars_to_keep subset of outputs, simplify flag, tactics_order, call order); oracle: "
         "A_C and (A1+ => G1) and (A2+ => G2) must imply every term of A1, A2 and G_C (exact, box 1000, tolerance 1e-4(1+|c|), A+ = "
         "assumptions enlarged by 1e-7); non-trivial = compose returned, at least one tactic transformed a term (statistics entry > 0), "
         "and the hypotheses are satisfiable in the box; distinct = SHA-1 of the case")
@@ -15,8 +15,25 @@ ASSUMPTIONS = ["operands are the contracts as constructed (after the constructor
 
 
 @st.composite
+def _cancelling_pair(draw):
+    """cascade in which the consumer's assumption cancels completely against the producer's guarantee and leaves `0 <= -delta`
+    (not dischargeable), next to an unrelated assumption with a constant of any size"""
+    f = float(draw(st.sampled_from([1, 2, 0.5])))
+    delta = float(draw(st.sampled_from([0.5, 1, 0.0005, 2 ** -10, -1, 0])))     # <= 0: dischargeable
+    big = float(draw(st.sampled_from([10, 1e3, 2e3, 1e6])))
+    c1 = {"i": ["u"], "o": ["y"], "a": [], "g": [[{"y": f, "u": -f}, 0.0]]}
+    if draw(st.booleans()):
+        c1["g"].append([{"y": -1.0, "u": 1.0}, float(draw(st.sampled_from([0, 1, 5])))])
+    c2 = {"i": ["y", "u", "v"], "o": ["z"], "a": [[{"y": 1.0, "u": -1.0}, -delta], [{"v": 1.0}, big]],
+          "g": [[{"z": 1.0, "y": -1.0}, float(draw(st.sampled_from([0, 1])))]]}
+    if draw(st.booleans()):
+        c2["a"].reverse()
+    return {"c1": c1, "c2": c2, "wiring": "cascade12", "content": "cancelling"}
+
+
+@st.composite
 def compose_case_s(draw, kinds=gens.WIRINGS_W):
-    p = draw(gens.contract_pair_s(kinds))
+    p = draw(_cancelling_pair()) if kinds is gens.WIRINGS_W and draw(st.integers(0, 15)) == 0 else draw(gens.contract_pair_s(kinds))
     outs = p["c1"]["o"] + p["c2"]["o"]
     keep = [v for v in outs if draw(st.integers(0, 5)) == 0]
     return {"c1": p["c1"], "c2": p["c2"], "wiring": p["wiring"], "content": p["content"], "keep": keep,
